@@ -1,5 +1,6 @@
 import HcipyVerif.Model.Cache
 import Mathlib.Data.Finset.Card
+import Mathlib.Data.Nat.Pairing
 import Mathlib.Data.Finset.Basic
 import Mathlib.Data.Finset.Lattice.Lemmas
 
@@ -566,5 +567,18 @@ theorem hidden_state_history_transparent {σ X Y : Type} (call : σ → X → σ
     obtain ⟨h1, h2⟩ := h s x hs
     simp only [runObj, List.map_cons]
     rw [h2, ih _ h1]
+
+/-! ### The pairing behind `gridKey` -/
+
+theorem pair_eq_natPair (a b : Nat) : pair a b = Nat.pair a b := rfl
+
+theorem pair_injective {a b c d : Nat} (h : pair a b = pair c d) : a = c ∧ b = d := by
+  rw [pair_eq_natPair, pair_eq_natPair] at h
+  exact Nat.pair_eq_pair.mp h
+
+theorem gridKey_injective {g1 g2 : Grid} (h : gridKey g1 = gridKey g2) : g1 = g2 := by
+  cases g1; cases g2
+  obtain ⟨h1, h2⟩ := pair_injective h
+  simp_all
 
 end HcipyVerif.Cache
